@@ -3,32 +3,10 @@
 import json, os, subprocess
 V = os.path.dirname(os.path.dirname(os.path.abspath(__file__)))
 TRUST = "TLC/SANY; the harness's renderer and projection; JSON plumbing; the specification module as the statement of the property"
-CHECKS = {
- "C37": dict(
-   technique="TLA+ spec Cmds.tla: TLC refinement check (binary/prefix search vs linear-scan definition) on every table + replay of every TLC table and seeded TLC histories on fast.Commands and Interp.Cmd",
-   text="TLC exhaustively enumerates every command table over a name set sharing prefixes (2^11 quick, 2^16 thorough) and checks that the implementation-level lookup refines the linear-scan definition; every distinct table and tens of thousands of simulated add/del/lookup histories are replayed on the real fast.Commands and Interp.Cmd and compared lookup by lookup. Exhaustive inside the bound, which is the right level for a small pure data structure.",
-   ref="§6 C37", note=TRUST + "; only the package-level table is constructible; built-in commands are looked up but not executed"),
- "C07": dict(
-   technique="TLA+ spec Defer.tla (Go semantics of defer/panic/recover with lazily revealed programs): TLC BFS + simulation emit (program, event log, outcome); replayed event-by-event on the fast interpreter; Go gate compiles the same programs natively",
-   text="TLC enumerates every program up to the operation bound together with the event log and outcome Go prescribes (hundreds of thousands of states, tens of thousands of distinct programs; simulation for deeper programs over the full operation alphabet including executor phase 2) and checks the semantics' own invariants; every emitted program is run on the real interpreter and compared event by event; a seeded fraction (quick) or all (thorough) is also compiled and run natively so that the specification itself is pinned to Go.",
-   ref="§6 C07", note=TRUST + "; the Go toolchain as gate; call graph acyclic by construction; recover across compiled/interpreted frames excluded (documented limitation)"),
- "C12": dict(
-   technique="TLA+ spec Defer.tla with environment action 'injected hook panics at its k-th call': TLC enumerates (program, fault point) pairs; replay with the hook armed, then run-state snapshot + battery of specification behaviours in the same interpreter",
-   text="Fault enumeration driven by the specification: TLC enumerates every program of the bounded space crossed with every call k at which the injected compiled hook panics (inside interpreted code, inside deferred calls incl. deferred compiled functions, while another panic is handled) with the outcome Go prescribes; each pair is executed on the real interpreter, then the executor bookkeeping (ExecFlags, current frame, debug signal, pending defer) is read through a verif hook and a battery of fault-free specification behaviours is replayed in the same interpreter and compared event by event, including the IsDefer flag and call depth observed at every event.",
-   ref="§6 C12", note=TRUST + "; fast.VerifSnapshot (verif tag) reads Run fields without side effects; behaviours with two panics in flight have their own log judged by C07's known finding, their after-state is still checked"),
- "C13": dict(
-   technique="TLA+ spec Exec.tla (executor polling protocol with the code's constants): TLC safety (bounded response, no new activation) + liveness under fairness; replay of every (loop shape, k) with the hook raising Interp.Interrupt; asynchronous interrupts from another goroutine",
-   text="TLC model-checks the executor's two polling phases (5x14 unrolled statements, then blocks of 15), the flag tests at activation entry and exit and the environment action 'interrupt at the k-th hook call': at most 14 further statements run, no new activation runs a statement, and under weak fairness the interrupt is always serviced; two broken variants are rejected. Every (shape, k) pair of the model is then executed on the real interpreter: the evaluation must end with the interrupt signal after at most the model's bound of further hook calls (counted by the hook itself, never by a timeout), the bookkeeping must be quiescent, the program must still run to completion afterwards and a battery of Defer.tla behaviours must give the specified results; asynchronous delivery from another goroutine at seeded delays covers loops without calls.",
-   ref="§6 C13", note=TRUST + "; one hook call >= one statement (one-sided bound); async runs allow 200000 iterations of slack for store visibility; interrupts during a single long compiled call are out of scope"),
- "C06": dict(
-   technique="TLA+ specs Frames.tla (frame pool: alloc/mark/take-address/free, NoStaleRef, three broken variants) and Calls.tla (Go-level histories of escaping closures/pointers with frame-recycling calls): TLC BFS+simulation histories rendered per closure-signature cell, run with poisoned pooled frames (verif hook), gated natively",
-   text="TLC model-checks the pool discipline (no escaped closure or pointer can reach a pooled or re-issued frame or slot array, for every interleaving of calls, captures, address-taking and returns in the bound) and enumerates Go-level histories with their expected observations; each history is rendered with a closure signature selecting one generated func{0,1,2}ret{0,1} specialisation (all 17x17 kind cells get the canonical escaping history, other histories take cells by seed) and executed on the interpreter with every pooled frame poisoned, so a missing protection in one cell yields a visibly wrong value.",
-   ref="§6 C06", note=TRUST + "; poisoning of pooled frames is invisible to correct code (baseline passes with it); Go toolchain as gate for a seeded fraction"),
- "C28": dict(
-   technique="TLA+ spec TypeId.tla: finite type terms + recursive Id operator (Go rule and typeutil's documented interface rule) checked by TLC for reflexivity/symmetry/transitivity/refinement on every generated term, association-list map model with history variable and map laws; the TLC-printed identity matrix is compared pair by pair with typeutil.Identical / Hasher.Hash on types built with the real go/types fork constructors (two pointer-distinct instances per term), TLC map histories (BFS + seeded simulation) are replayed on typeutil.Map; the Go-rule matrix is gated against the standard library go/types.Identical, map histories against a native Go map",
-   text="TLC generates every term of a bounded grammar (375 terms quick, 3655 thorough: basic incl. byte alias, named types sharing declarations, pointer, slice, array, map, chan, func incl. variadic, struct with names/packages/embedding/tags, interface with explicit methods and embedded declarations incl. the recursive 'm() interface{T}' shape), checks that identity is an equivalence under both rules and that the documented rule refines Go's, and prints one matrix row per term; all ordered pairs (140 k quick, 13.4 M thorough) are run through the real Identical (a panic is a violation) and every model-identical pair through the real hash; all map histories of length 4 over 4 (quick) / 8 (thorough) keys chosen so that real hashes collide, plus seeded simulated histories over 12 keys, are replayed on typeutil.Map comparing result, Len, At (both instances of every key), Keys and Iterate after each step. Exhaustive inside the bound, which is the right level for pure functions over a small grammar.",
-   ref="§6 C28", note=TRUST + "; standard go/types as gate; interfaces completed before use, embedded interfaces are declared types, one declaration per method name, no receivers on function types, no negative array lengths"),
-}
+CHECKS = {}
+for fn in sorted(os.listdir(os.path.join(V, "manifest.d"))):
+    if fn.endswith(".json"):
+        CHECKS[fn[:-5]] = json.load(open(os.path.join(V, "manifest.d", fn)))
 NA = {
  "C31": "no state or transition to model: the property equates ~150 generated data tables with the linked standard library's symbol universe; deciding it needs regenerate-and-compare, a different technique (DESIGN §7)",
 }
